@@ -205,9 +205,19 @@ EBNF_TERMS = [  # collision-free on purpose (distinct first characters, no share
 EBNF_LITS = ['+', ',', 'a', 'z', '(', ')']
 
 
-def ebnf(rng, profile='shaping', n_rules=None, p_rec=0.15, allow_templates=True, p_ignore=0.3,
-         allow_prio=False, mods_pool=('', '', '', '?', '?', '!', '?!'), max_rep=3, placeholders_only_simple=True):
-    """random EBNF grammar using every shaping feature: ? ! _ aliases [..] ? * + ~n..m groups templates"""
+def ebnf(rng, *a, **kw):
+    """random EBNF grammar using every shaping feature: ? ! _ aliases [..] ? * + ~n..m groups templates.
+    Grammars whose rules multiply out to more than 300 BNF alternatives are drawn again (their construction is
+    merely expensive, which would blur the step budget that stands for termination)."""
+    from .gram import expansion_estimate
+    while True:
+        G = _ebnf(rng, *a, **kw)
+        if expansion_estimate(G) <= 300:
+            return G
+
+
+def _ebnf(rng, profile='shaping', n_rules=None, p_rec=0.15, allow_templates=True, p_ignore=0.3,
+          allow_prio=False, mods_pool=('', '', '', '?', '?', '!', '?!'), max_rep=3, placeholders_only_simple=True):
     nterm = rng.randint(2, 4)
     tpool = rng.sample(EBNF_TERMS, nterm)
     tnames = [t[0] for t in tpool]
